@@ -31,7 +31,7 @@ From Astisub Require Import Kit.Base Kit.Str Kit.Float64 Kit.Float64x Kit.Xml Mo
   Proofs.DurProofs Proofs.TtmlBase Proofs.TtmlSpec Proofs.TtmlTime Proofs.TtmlFloat Proofs.TtmlFloat2 Proofs.TtmlTimeAll
   Proofs.TtmlLines Proofs.TtmlPara Proofs.TtmlRefs Proofs.TtmlDocSpec Proofs.TtmlDoc Kit.XmlParse Proofs.XmlParseProofs Proofs.TtmlBytes
   Proofs.TtmlRender Proofs.TtmlRenderTime Proofs.TtmlRenderDoc Proofs.TtmlReadRendered Proofs.TtmlRenderEx
-  Kit.XmlParse2 Proofs.XmlParse2Proofs.
+  Kit.XmlParse2 Proofs.XmlParse2Proofs Proofs.TtmlRenderBytesSpec Proofs.TtmlRenderBytes.
 Import ListNotations.
 Open Scope Z_scope.
 
@@ -197,6 +197,18 @@ Theorem C03_parse2_print2 : forall pc t prolog, wf2_root t = true -> pchoice_ok 
   xml_parse2 (prolog ++ print2 print_name pc t) = Some t.
 Proof. exact parse2_print2. Qed.
 Print Assumptions C03_parse2_print2.
+
+(* the composite reading theorem through bytes: under the standard name-space assignment ([render_std]: default
+   namespace for elements, xml:id / xml:lang, tts:*, the two declarations on the root) and without CR ([bytes_ok]),
+   the rendered document printed with ANY printing choice and prolog is parsed by the XML parser model to a tree the
+   reader reads as what the rendering denotes *)
+Theorem C03_read_rendered_bytes : forall r m pc prolog,
+  render_ok r m = true -> bytes_ok r m = true -> pchoice_ok pc (render_std r m) = true -> prolog_ok prolog = true ->
+  exists t, xml_parse2 (prolog ++ print2 print_name pc (render_std r m)) = Some t /\ read_ttml t = Ok (denote_ttml r m).
+Proof. exact read_rendered_bytes. Qed.
+Print Assumptions C03_read_rendered_bytes.
+Example C03_read_rendered_bytes_example : render_ok ex_rendering ex_model = true /\ bytes_ok ex_rendering ex_model = true.
+Proof. split; vm_compute; reflexivity. Qed.
 
 (* ---------------- totality ---------------- *)
 Theorem C03_read_total : forall root s, read_ttml root <> Panic s.
